@@ -91,7 +91,7 @@ def run(v, prop, tier):
                 v.drift.append("%s differs outside %s's projection: %s" % (sorted(comps), prop, detail[:300]))
     if lines != rep["events"]:
         raise InfraError("TLC consumed %d lines, recorder wrote %d" % (lines, rep["events"]))
-    for need in ("steps", "gascont", "constgas", "memgas", "callret", "results", "nodes", "refused", "trees", "forkgas", "refunds", "sstorerule", "callrule", "refundrule"):
+    for need in ("steps", "gascont", "constgas", "memgas", "callret", "results", "nodes", "refused", "trees", "forkgas", "refunds", "sstorerule", "callrule", "refundrule", "aclrule"):
         if cnt.get(need, 0) == 0:
             raise InfraError("rule coverage: '%s' never fired - generator too weak" % need)
     v.cov["traces_validated_against_impl"] += rep["runs"]
